@@ -290,7 +290,59 @@ def case_foreign_file(ctx):
     ctx.case("parquet.reject_nesting", s.desc(), real, None, {"ok": True}, hyp=s.hyp, features=s.features)
 
 
+def case_uneven_row_groups(ctx):
+    """files whose row groups have very different sizes (a handful of rows next to a thousand and more, in either
+    order — written batch by batch with plain pyarrow, or by to_parquet with a row group size that leaves a short
+    tail): every nested row still belongs to the base row it was written with"""
+    import pyarrow.parquet as pq
+    from nested_pandas import read_parquet
+    rng = ctx.rng
+    patterns = [(12, 1100), (5, 1024), (1100, 12), (300, 1500, 7), (1, 2000), (1030, 3, 1030)]
+    k_case = getattr(ctx, "_uneven_count", 0)
+    ctx._uneven_count = k_case + 1
+    sizes = list(patterns[k_case % len(patterns)])       # every pattern in turn
+    n = sum(sizes)
+    ids = np.arange(n, dtype=np.int64)
+    lens = (ids % 4).astype(np.int64)              # row i holds i % 4 records, every record carries the number i
+    offs = np.concatenate([[0], np.cumsum(lens)]).astype(np.int32)
+    flat_ids = np.repeat(ids, lens)
+    st = pa.StructArray.from_arrays(
+        [pa.ListArray.from_arrays(pa.array(offs), pa.array(flat_ids)),
+         pa.ListArray.from_arrays(pa.array(offs), pa.array(flat_ids.astype(np.float64) / 2))], names=["a", "b"])
+    via = "pyarrow_batches" if k_case < len(patterns) else rng.choice(["pyarrow_batches", "to_parquet_tail"])
+    buf = io.BytesIO()
+    if via == "pyarrow_batches":
+        tbl = pa.table({"id": pa.array(ids), "nest": st})
+        w = pq.ParquetWriter(buf, tbl.schema)
+        at = 0
+        for k in sizes:
+            w.write_table(tbl.slice(at, k))
+            at += k
+        w.close()
+    else:
+        nf0 = NestedFrame({"id": ids, "nest": pd.Series(NestedExtensionArray(st))})
+        nf0.to_parquet(buf, row_group_size=max(sizes))
+    buf.seek(0)
+
+    def run():
+        nf = read_parquet(buf)
+        assert isinstance(nf["nest"].dtype, NestedDtype), f"nest came back as {nf['nest'].dtype}"
+        got_ids = np.asarray(nf["id"], dtype=np.int64)
+        ll = np.asarray(nf["nest"].nest.list_lengths, dtype=np.int64)
+        flat = nf["nest"].nest.to_flat()
+        owner = np.repeat(got_ids, ll)
+        return {"rows": int(len(nf)), "ids_in_order": bool((got_ids == ids).all()),
+                "lengths_belong_to_ids": bool((ll == got_ids % 4).all()),
+                "records_belong_to_rows": bool(len(flat) == len(owner) and (np.asarray(flat["a"], dtype=np.int64) == owner).all()
+                                               and (np.asarray(flat["b"], dtype=np.float64) * 2 == owner).all())}
+    ctx.case("parquet.uneven_row_groups", {"sizes": sizes, "via": via}, call_real(run), None,
+             {"ok": {"rows": n, "ids_in_order": True, "lengths_belong_to_ids": True, "records_belong_to_rows": True}},
+             features=("uneven_row_groups", via), nontrivial=True)
+
+
 def run_all(ctx):
+    for _ in range(ctx.budget(8, 24)):
+        case_uneven_row_groups(ctx)
     for i in range(ctx.budget(60, 800)):
         case_roundtrip(ctx)
         if i % 3 == 0:
